@@ -3333,7 +3333,9 @@ LEFT JOIN conversions ON {join_condition}{group_by}{order_clause}{limit_clause}
                 else:
                     field_name = field
                 order_clauses.append(field_name)
-            order_by_clause = f"\nORDER BY {', '.join(order_clauses)}"
+            # Same ORDER BY (incl. NULL ordering) as the base-table query, which is built by sqlglot
+            ordered = exp.select("*").order_by(*order_clauses).sql(dialect=self.dialect)
+            order_by_clause = "\n" + ordered[ordered.index("ORDER BY") :]
 
         # Build LIMIT/OFFSET clause
         limit_clause = ""
